@@ -67,6 +67,18 @@ func genCase(t *rapid.T) Case {
 			c.Signers = append(c.Signers, id)
 		}
 		c.Img = bin.Bytes()
+		if rapid.IntRange(0, 3).Draw(t, "dirtypadding") == 0 {
+			// the alignment bytes after each table entry are not covered by anything: make them non-zero
+			if es, l, err := acode.Table(c.Img); err == nil && l != nil {
+				img := append([]byte{}, c.Img...)
+				for _, e := range es {
+					for k := range e.Padding {
+						img[int(l.CertVA)+e.Offset+int(e.Length)+k] = 0xd0 + byte(k)
+					}
+				}
+				c.Img = img
+			}
+		}
 		if rapid.IntRange(0, 4).Draw(t, "badtail") == 0 {
 			// append an entry with an unsupported revision: listing / verifying then fails, and must fail the same way every time
 			if es, _, err := acode.Table(c.Img); err == nil {
@@ -327,6 +339,15 @@ func checkCase(c Case) error {
 		}
 	}
 	finalWant := final()
+	// a bystander image (length not a multiple of 8, so it carries padding) that nobody touches must not change either
+	var bystander *authenticode.PECOFFBinary
+	var bystanderWant string
+	if b, ok := hx.RepoFile("tests/data/binary/test.pecoff"); ok && len(b) > 100 {
+		if bp, err := authenticode.Parse(bytes.NewReader(b[:len(b)-3])); err == nil {
+			bystander = bp
+			bystanderWant = digest(bp.Bytes()) + digest(bp.Hash(crypto.SHA256))
+		}
+	}
 
 	// classification
 	hx.Class("object/" + c.Object)
@@ -388,6 +409,18 @@ func checkCase(c Case) error {
 		close(errs)
 		for err := range errs {
 			return err
+		}
+	}
+	if bystander != nil {
+		if got := digest(bystander.Bytes()) + digest(bystander.Hash(crypto.SHA256)); got != bystanderWant {
+			return fmt.Errorf("%s: an unrelated image object that was parsed before the calls changed (state shared between objects)", c.Object)
+		}
+		if bp, ok := hx.RepoFile("tests/data/binary/test.pecoff"); ok {
+			if fresh, err := authenticode.Parse(bytes.NewReader(bp[:len(bp)-3])); err == nil {
+				if got := digest(fresh.Bytes()) + digest(fresh.Hash(crypto.SHA256)); got != bystanderWant {
+					return fmt.Errorf("%s: an image parsed after the calls hashes / serialises differently than the same image parsed before them (package-level state)", c.Object)
+				}
+			}
 		}
 	}
 	if got := final(); got != finalWant {
